@@ -96,6 +96,27 @@ def run(rep, wd, tier, seed):
                     traces.append(trace(len(traces), data, True, blocked, fam,
                                         '%s %s writer file, %d records, %d bytes (%d blocks)' % (enc, '1014' if blocked else 'vbs',
                                                                                                len(msgs), len(data), len(data) // 1014 if blocked else 0)))
+    # blocked files whose data (records, length prefixes, terminator) is exactly 1, 2, 3 times 1012 bytes, and
+    # files whose first record is longer than the inspection sample
+    for enc, fam in (('latin_1', 'ascii'), ('cp500', 'ebcdic')):
+        for k in (1, 2, 3):
+            for split in (1, 2):
+                total = 1012 * k - 4                          # minus the terminator
+                if split == 1:
+                    sizes = [total - 4]
+                else:
+                    sizes = [(total - 8) // 2, total - 8 - (total - 8) // 2]
+                if max(sizes) > 5990 or min(sizes) < 40:
+                    continue
+                msgs = [isoc.message_exact(n_, enc) for n_ in sizes]
+                data = ipmc.write_file(msgs, enc, bc, True)
+                traces.append(trace(len(traces), data, True, True, fam, '%s blocked writer file whose data is exactly %d x 1012 bytes (%d records), %d bytes'
+                                    % (enc, k, len(sizes), len(data))))
+        for first in (2496, 2497, 2600, 4000, 5990):
+            for blocked in (True, False):
+                data = ipmc.write_file([isoc.message_exact(first, enc), {'MTI': '1240', 'DE3': '123456'}], enc, bc, blocked)
+                traces.append(trace(len(traces), data, True, blocked, fam, '%s %s writer file whose first record is %d bytes' %
+                                    (enc, '1014' if blocked else 'vbs', first)))
     # unblocked files engineered to have 0x40 0x40 at bytes 1012-1013
     for enc, fam in (('latin_1', 'ascii'), ('cp500', 'ebcdic')):
         for extra in (0, 1, 3):
